@@ -1,11 +1,10 @@
 (* C10/Property.v — property theorems only.
    rmatch (the regex engine) and ectab (the entity-category tables) are universally quantified:
    the theorems hold for every regex semantics and every table.
-   `guard` = the stated input assumption wf (with entity categories in force the identity has no
-   attribute named "") and NOT in the class of the open finding C10-F5 (an ONLY_REQUIRED entity category is
-   configured and a REQUIRED RequestedAttribute carries a FriendlyName that, read before Name + NameFormat,
-   names another attribute: Policy.get_entity_categories reads the label first; c10_label_first_categories_refuted).
-   The classes of the repaired findings C10-F1 / C10-F2 are not excluded.
+   `guard` is no finding guard: it is only the stated input assumption wf (with entity categories in force the
+   identity has no attribute named "").  The classes of the repaired findings C10-F1 (a4e3dbdd), C10-F2 (47cc754e)
+   and C10-F5 (4be62a1c: Policy.get_entity_categories read the FriendlyName of a required RequestedAttribute
+   before its Name + NameFormat; c10_label_first_categories_v0_refuted) are not excluded.
    What a RequestedAttribute declares is Name + NameFormat (Spec.designators / required_names); the FriendlyName
    is a label that stands in only when the attribute maps do not know the Name. *)
 From Coq Require Import String List Bool.
@@ -43,7 +42,7 @@ Print Assumptions c10_missing_required_is_error.
 
 (* the whole property at the Policy level *)
 Theorem c10_policy_level : forall rmatch ectab x,
-  (forall be, i_entry x <> EServer be) -> guard ectab x = true ->
+  (forall be, i_entry x <> EServer be) -> wf ectab x = true ->
   spec rmatch ectab (flat x) (run rmatch ectab x).
 Proof. exact policy_level_holds. Qed.
 Print Assumptions c10_policy_level.
@@ -145,13 +144,14 @@ Theorem c10_label_first_match_refuted : exists d a fn,
 Proof. exact label_first_match_refuted. Qed.
 Print Assumptions c10_label_first_match_refuted.
 
-(* finding C10-F5 (OPEN): Policy.get_entity_categories reads the label first; with an ONLY_REQUIRED category the
-   faithful model releases an attribute the requester did not require - on an input that satisfies wf and lies in
-   class 3, the class `guard` excludes *)
-Theorem c10_label_first_categories_refuted : exists rmatch ectab x,
-  wf ectab x = true /\ class3 ectab x = true /\ ~ spec rmatch ectab (flat x) (run rmatch ectab x).
-Proof. exact label_first_categories_refuted. Qed.
-Print Assumptions c10_label_first_categories_refuted.
+(* finding C10-F5, fixed by 4be62a1c: the code BEFORE the repair (restrict_lf: Policy.get_entity_categories reads
+   the label first) releases, with an ONLY_REQUIRED category, an attribute the requester did not require - on an
+   input that satisfies wf and lies in class 3 (Corr.cls names a regression) *)
+Theorem c10_label_first_categories_v0_refuted : exists rmatch ectab x,
+  i_entry x = ERestrict None /\ wf ectab x = true /\ class3 ectab x = true
+  /\ ~ spec rmatch ectab (flat x) (run_restrict_lf rmatch ectab x).
+Proof. exact label_first_categories_v0_refuted. Qed.
+Print Assumptions c10_label_first_categories_v0_refuted.
 
 (* the boolean spec that Coq evaluates on the implementation's recorded output is the stated spec *)
 Theorem c10_spec_reflect : forall rmatch ectab x o,
